@@ -125,6 +125,18 @@ def run(plan):
             if bad and which % NREQ[opname] == 0:
                 res.fail("good frame delivered with a bad one in the same exchange was not applied: " + bad[0][0], repr(bad))
                 return
+        state_like = any(len(f) > 10 and f[10] == 0xC0 for f in (getattr(dev, "bad_frames", None) or []))
+        if (opname == "refresh" and which % nreq != 0 and plan.get("learn_caps", True) and not plan.get("caps_profile")
+                and not state_like):
+            # only a later query of this refresh was answered badly: the state report of the same refresh was
+            # well-formed and must have been applied
+            if not ac.online:
+                res.fail("refresh offline although the state query of the same refresh was answered well", f"{spec}")
+                return
+            bad = compare_view(ac, dev.state, dev.state_len)
+            if bad:
+                res.fail("state report of a refresh was discarded because a later query was answered badly: " + bad[0][0], repr(bad))
+                return
         # usable afterwards
         o2 = await s.do({"op": "refresh"})
         if o2.kind != "ok":
